@@ -58,7 +58,7 @@ RULE = ("random stoichiometric networks (gennet.gen_network, finite bounds) with
         "in a random reversibility pattern (forward-only, reversible, written backwards), objective on a boundary "
         "reaction or on a cycle/internal reaction, max or min; x method: loopless_solution with starting vector "
         "none | own FBA optimum | pFBA | exact optimal vertex with loops | exact sub-optimal vertex | perturbed vector, "
-        "or add_loopless (<= 4 internal reactions quick, <= 6 thorough). non-trivial = the FBA problem is feasible and "
+        "or add_loopless (<= 4 internal reactions quick, <= 5 thorough; a third with a one-directional cycle driven by the objective). non-trivial = the FBA problem is feasible and "
         "the case ran on both sides; distinct = distinct (network, method, start)")
 TRUSTED = ["GLPK (LP and MIP) / optlang are validated per instance against certificate-checked exact optima, not proved",
            "harness/lpexact.py only searches for certificates; coq/theories/LP/Cert.v decides them",
@@ -83,13 +83,26 @@ def internal_idx(net):
     return [i for i, r in enumerate(net["rxns"]) if not is_boundary(r)]
 
 
-def add_cycle(rng, net):
+def add_cycle(rng, net, force=None):
+    """force = 'pos' / 'neg': a cycle that can run with all fluxes positive / all negative (targeted add_loopless
+    cases: the direction-specific halves of the big-M constraints)."""
     mets = net["mets"]
     L = rng.choice([2, 2, 3, 3, 4])
     L = min(L, len(mets))
     if L < 2:
         return
     ms = rng.sample(mets, L)
+    if force:
+        for k in range(L):
+            a, b = ms[k], ms[(k + 1) % L]
+            U = lambda: rng.choice([F(1), F(5), F(10), F(1000)])  # noqa
+            if force == "pos":
+                st, lb, ub = {a: F(-1), b: F(1)}, rng.choice([F(0), -U()]), U()
+            else:
+                st, lb, ub = {a: F(1), b: F(-1)}, -U(), rng.choice([F(0), U()])
+            net["rxns"].append({"id": "C%d" % len(net["rxns"]), "st": {m: str(c) for m, c in st.items()},
+                                "lb": str(lb), "ub": str(ub), "obj": "0", "gpr": ""})
+        return
     parallel = L == 2 and rng.random() < 0.4     # two parallel copies a -> b, one of which must run backwards
     for k in range(L):
         a, b = ms[k], ms[(k + 1) % L]
@@ -107,14 +120,22 @@ def add_cycle(rng, net):
                             "lb": str(lb), "ub": str(ub), "obj": "0", "gpr": ""})
 
 
-def gen_net(rng, max_int, min_int=2):
-    for _ in range(200):
+def gen_net(rng, max_int, min_int=2, force=None):
+    for _ in range(400):
         net = gennet.gen_network(rng, finite_only=True, genes=False, max_mets=4,
-                                 max_rxns=rng.randrange(3, 7), forced_p=0.06)
-        if rng.random() < 0.85:
-            add_cycle(rng, net)
+                                 max_rxns=rng.randrange(3, 7) if not force else rng.randrange(2, 4), forced_p=0.06)
+        if force or rng.random() < 0.85:
+            add_cycle(rng, net, force)
         for r in net["rxns"]:
             r["obj"] = "0"
+        if force:                                   # objective drives the cycle in its direction
+            if len(internal_idx(net)) > max_int or net["rxns"][-1]["id"][0] != "C":
+                continue
+            drive = rng.choice([("1", "max"), ("-1", "min")] if force == "pos" else [("1", "min"), ("-1", "max")])
+            net["rxns"][-1]["obj"], net["dir"] = drive
+            if lpexact.certified(gennet.net_lp(net))[0] != "optimal":
+                continue
+            return net
         ints = internal_idx(net)
         bnd = [i for i in range(len(net["rxns"])) if i not in ints]
         if not (min_int <= len(ints) <= max_int) or not bnd:
@@ -134,14 +155,15 @@ LS_MODES = ["none", "none", "fba", "pfba", "loopy", "loopy", "subopt", "subopt",
 
 
 def gen_cases(rng, tier):
-    n_ls, n_al = (110, 40) if tier == "quick" else (1500, 400)
-    max_al = 4 if tier == "quick" else 6
+    n_ls, n_al = (110, 40) if tier == "quick" else (900, 150)
+    max_al = 4 if tier == "quick" else 5
     cases = []
     for k in range(n_ls):
         net = gen_net(rng, 8)
         cases.append({"kind": "ls", "net": net, "mode": LS_MODES[k % len(LS_MODES)], "pick": rng.randrange(10 ** 6)})
     for k in range(n_al):
-        net = gen_net(rng, max_al if k % 3 else min(max_al, 3), min_int=1)
+        force = {0: "pos", 1: "neg"}.get(k % 6)      # a third of the cases: objective drives a one-directional cycle
+        net = gen_net(rng, max_al if k % 3 else min(max_al, 3), min_int=1, force=force)
         cases.append({"kind": "al", "net": net})
     return cases
 
